@@ -356,30 +356,112 @@ func (rw *rewriter) rewriteRecvExprs(n ast.Node) {
 	})
 }
 
-// yieldBeforeStatements inserts simrt.Yield("file:line") in front of every statement of every block.
+// yieldBeforeStatements inserts simrt.Yield("file:line") in front of every statement of every block -
+// except while the enclosing function visibly holds a lock (between x.Lock()/RLock() and the matching
+// Unlock in the same statement list, or after `defer x.Unlock()`): a goroutine parked with a mutex held
+// would make another one block on that mutex, which a synctest bubble does not count as idle.
 func (rw *rewriter) yieldBeforeStatements(f *ast.File) {
-	ast.Inspect(f, func(n ast.Node) bool {
-		b, ok := n.(*ast.BlockStmt)
-		if !ok {
-			return true
+	lockCall := func(st ast.Stmt, names ...string) bool {
+		var call *ast.CallExpr
+		switch x := st.(type) {
+		case *ast.ExprStmt:
+			call, _ = x.X.(*ast.CallExpr)
+		case *ast.DeferStmt:
+			call = x.Call
 		}
+		if call == nil {
+			return false
+		}
+		sel, ok := call.Fun.(*ast.SelectorExpr)
+		if !ok {
+			return false
+		}
+		for _, n := range names {
+			if sel.Sel.Name == n {
+				return true
+			}
+		}
+		return false
+	}
+	var walkBlock func(b *ast.BlockStmt, held bool)
+	var walkStmt func(st ast.Stmt, held bool)
+	walkFuncs := func(n ast.Node, held bool) {
+		// function literals inside expressions start with no lock held of their own
+		ast.Inspect(n, func(m ast.Node) bool {
+			if fl, ok := m.(*ast.FuncLit); ok {
+				walkBlock(fl.Body, false)
+				return false
+			}
+			return true
+		})
+	}
+	walkStmt = func(st ast.Stmt, held bool) {
+		switch x := st.(type) {
+		case *ast.BlockStmt:
+			walkBlock(x, held)
+		case *ast.IfStmt:
+			walkFuncs(x.Cond, held)
+			walkBlock(x.Body, held)
+			if x.Else != nil {
+				walkStmt(x.Else, held)
+			}
+		case *ast.ForStmt:
+			walkBlock(x.Body, held)
+		case *ast.RangeStmt:
+			walkBlock(x.Body, held)
+		case *ast.SwitchStmt:
+			for _, c := range x.Body.List {
+				cc := c.(*ast.CaseClause)
+				walkBlock(&ast.BlockStmt{List: cc.Body}, held) // statements of a clause are not rewritten (no yields), nested blocks are
+			}
+		case *ast.TypeSwitchStmt:
+			for _, c := range x.Body.List {
+				cc := c.(*ast.CaseClause)
+				walkBlock(&ast.BlockStmt{List: cc.Body}, held)
+			}
+		default:
+			walkFuncs(st, held)
+		}
+	}
+	walkBlock = func(b *ast.BlockStmt, held bool) {
+		isClauseList := false
 		for _, st := range b.List {
 			switch st.(type) {
 			case *ast.CaseClause, *ast.CommClause:
-				return true // the body of a switch or select: clauses, not statements
+				isClauseList = true
 			}
+		}
+		if isClauseList {
+			return
 		}
 		var list []ast.Stmt
 		for _, st := range b.List {
-			if st.Pos().IsValid() {
+			if lockCall(st, "Unlock", "RUnlock") {
+				if _, isDefer := st.(*ast.DeferStmt); isDefer {
+					held = true // released only when the function returns
+				}
+			}
+			if !held && st.Pos().IsValid() {
 				list = append(list, &ast.ExprStmt{X: call(sel("Yield"), rw.site(st.Pos()))})
 				rw.changed = true
 			}
+			walkStmt(st, held)
 			list = append(list, st)
+			if _, isDefer := st.(*ast.DeferStmt); !isDefer {
+				if lockCall(st, "Lock", "RLock") {
+					held = true
+				} else if lockCall(st, "Unlock", "RUnlock") {
+					held = false
+				}
+			}
 		}
 		b.List = list
-		return true
-	})
+	}
+	for _, d := range f.Decls {
+		if fd, ok := d.(*ast.FuncDecl); ok && fd.Body != nil {
+			walkBlock(fd.Body, false)
+		}
+	}
 }
 
 func process(path string, maps map[string]bool) (out []byte, err error) {
